@@ -922,6 +922,9 @@ func c33ReaderZeroing(c *Ctx, l *core.Layout, rd *core.FuncInfo, update ast.Node
 			default:
 				if ix, ok := arg.(*ast.IndexExpr); ok && info.ObjectOf(identOf(ix.X)) == hdrBuf && core.VarOf(info, ix.Index) == idxVar {
 					calls = append(calls, "byte")
+				} else if v := core.VarOf(info, arg); v != nil && loop.Value != nil && v == core.VarOf(info, loop.Value) {
+					// `for index, b := range header`: the loop's value variable is header[index]
+					calls = append(calls, "byte")
 				} else {
 					calls = append(calls, "other:"+exprStr(arg))
 				}
